@@ -300,7 +300,8 @@ func (fv *FuncVC) execAssign(x *ast.AssignStmt, st *State) *State {
 			if o != nil {
 				if _, isVar := o.(*types.Var); isVar {
 					if _, local := st.vars[o]; local || define || o.Parent() != o.Pkg().Scope() {
-						st.vars[o] = Val{vals[i].T, vals[i].S, o.Type()}
+						nv := fv.named(vals[i], o.Name())
+						st.vars[o] = Val{nv.T, nv.S, o.Type()}
 						continue
 					}
 					fv.note("assignment to package-level variable %s", id.Name)
@@ -623,9 +624,10 @@ func assignedVars(info *types.Info, n ast.Node) []types.Object {
 				e = y.X
 				continue
 			case *ast.IndexExpr:
-				// arrays are slices here: element stores go to the heap; but keep root for value arrays
-				e = y.X
-				continue
+				// element stores go to the heap: the slice/map variable itself is unchanged
+				return
+			case *ast.StarExpr:
+				return
 			}
 			break
 		}
